@@ -358,6 +358,7 @@ func init() {
 			selfTransfers(c, []string{"C02"})
 			forgedDeliveries(c, []string{"C02"})
 			hugeNonceOps(c, []string{"C02"})
+			bigMulti(c, []string{"C02"})
 			runWalks(c, c.Scale(400, 1500), c.Scale(70, 120), 15, true, "C02")
 		},
 	})
@@ -389,6 +390,9 @@ func init() {
 			c04Directed(c)
 			c04SystemAddressForms(c)
 			c04LookAlikes(c)
+			if mine(c, 1) {
+				c04MetaNode(c)
+			}
 			hugeNonceOps(c, []string{"C04"})
 			runWalks(c, c.Scale(400, 1500), c.Scale(70, 120), 10, true, "C04")
 		},
@@ -904,6 +908,45 @@ func c04LookAlikes(c *harness.Ctx) {
 	}
 }
 
+// c04MetaNode: the executing node reports the metachain as its own shard. Frozen stays frozen and
+// paused stays paused there as anywhere (the library does not know which accounts a metachain holds).
+func c04MetaNode(c *harness.Ctx) {
+	w, err := world.New(world.Config{NumShards: 1, MetaSelf: true, DNS: [][]byte{gen.UserAddr(9, 0)}})
+	if err != nil {
+		return
+	}
+	w.ConfirmEpoch(0)
+	n := node.New(w)
+	m := NewMon(c.R, 1, "C04")
+	m.Attach(n)
+	A, B := gen.UserAddr(1, 0), gen.UserAddr(2, 0)
+	tok := []byte("FUNA-a1b2c3")
+	m.Registered = append(m.Registered, tok)
+	sys := func(fn string, to []byte, args ...[]byte) *node.Leg {
+		return n.ExecAt(0, node.Call{Func: fn, Caller: gen.SysSC, Recipient: to, Args: args})
+	}
+	sys(FTransfer, A, tok, gen.Big(1000))
+	sys(FTransfer, B, tok, gen.Big(1000))
+	sys(FSetRole, A, tok, []byte(RoleMint), []byte(RoleBurn))
+	attempts := func() {
+		n.ExecSenderAt(0, gen.TransferCall(A, B, tok, big.NewInt(5), gen.BigGas), true)
+		n.ExecSenderAt(0, gen.TransferCall(B, A, tok, big.NewInt(5), gen.BigGas), true)
+		n.ExecSenderAt(0, gen.MultiCall(A, B, []gen.Item{{ID: tok, Qty: big.NewInt(2)}}, gen.BigGas), true)
+		n.ExecSenderAt(0, gen.MultiCall(B, A, []gen.Item{{ID: tok, Qty: big.NewInt(2)}}, gen.BigGas), true)
+		n.ExecSenderAt(0, gen.SelfCall(FLocalMint, A, gen.BigGas, tok, gen.Big(3)), true)
+		n.ExecSenderAt(0, gen.SelfCall(FLocalBurn, A, gen.BigGas, tok, gen.Big(3)), true)
+		// arrival legs (no sender account)
+		n.ExecAt(0, gen.TransferCall(gen.UserAddr(3, 0), A, tok, big.NewInt(1), gen.BigGas))
+	}
+	sys(FFreeze, A, tok)
+	attempts()
+	sys(FUnFreeze, A, tok)
+	n.ExecAt(0, node.Call{Func: FPause, Caller: gen.SysSC, Recipient: vmcommon.SystemAccountAddress, Args: [][]byte{tok}})
+	attempts()
+	c.R.Cover("C04/metachain-node")
+	c.R.Eval(n.Seq())
+}
+
 // ---------------------------------------------------------------------------------------------
 // C04 directed
 
@@ -1132,7 +1175,7 @@ func c05Directed(c *harness.Ctx) {
 		keys := c05Keys(s0)
 		for ki, key := range keys {
 			for vi := 0; vi < 3; vi++ {
-				for ci := 0; ci < 4; ci++ {
+				for ci := 0; ci < 5; ci++ {
 					i++
 					if !mine(c, i) {
 						continue
@@ -1147,6 +1190,10 @@ func c05Directed(c *harness.Ctx) {
 						caller, rcv = s.KSame, s.A // contract writes into A
 					case 3:
 						caller, rcv = s.KSame, s.KSame // contract writes to itself
+					case 4:
+						// an address of the contract range whose account is a freshly created empty one
+						// (no code, no metadata yet): a contract address all the same
+						caller, rcv = gen.ContractAddr(9, 0), gen.ContractAddr(9, 0)
 					}
 					// A already has plain keys
 					gen.Must(u.N.Exec(node.Call{Func: FSaveKV, Caller: s.A, Recipient: s.A, Args: [][]byte{[]byte("plain"), []byte("v0"), []byte("kkk"), []byte("old")}, Gas: gen.BigGas}), "prep")
